@@ -269,31 +269,35 @@ def first_reproducing(scns):
 
 
 def concretise_and_replay(ctx, hr, native_found):
-    scns = []
+    """a failed Kani harness is only a candidate: obtain concrete inputs and reproduce on the real build.
+    1. the native bounded search (same oracle, real build, < 1 s) usually concretises the failure at once;
+    2. otherwise Kani's concrete playback (`-Z concrete-playback --concrete-playback=print`, several minutes) supplies the solver's values."""
     notes = []
-    try:
-        tests, pmeta = kanirun.playback(hr.name, harness_timeout_s=1200 if ctx.tier == 'quick' else 3000, tag='C18', stubbing=False)
-        notes.append('playback %ss, %d tests' % (pmeta['wall_s'], len(tests)))
-        for t in tests:
-            if t['kind'] == 'cover':
-                continue
-            s = decode_playback(hr.name, t)
-            if s is None:
-                notes.append('playback values for "%s" do not match the harness layout: widths %s' % (t['check'], t['widths']))
-            else:
-                scns.append(s)
-    except Exception as e:   # noqa
-        notes.append('playback failed: %r' % (e,))
-    res = first_reproducing(scns) if scns else {'replayed': False, 'detail': 'no concrete values obtained from kani'}
+    res = {'replayed': False, 'detail': 'no concrete values obtained'}
+    kind = 'perm' if hr.name in PERMS else 'mirror'
+    for n, out in native_found:
+        cand = [s for s in search_to_scenarios(out) if s['kind'] == kind] + [s for s in search_to_scenarios(out) if s['kind'] != kind]
+        res = first_reproducing(cand)
+        if res['replayed']:
+            notes.append('concretised by the native bounded search (n=%d)' % n)
+            break
     if not res['replayed']:
-        # fallback: the native bounded search concretises the failure on the real build
-        for n, out in native_found:
-            kind = 'perm' if hr.name in PERMS else 'mirror'
-            cand = [s for s in search_to_scenarios(out) if s['kind'] == kind] + [s for s in search_to_scenarios(out) if s['kind'] != kind]
-            r2 = first_reproducing(cand)
-            if r2['replayed']:
-                res = r2
-                break
+        scns = []
+        try:
+            tests, pmeta = kanirun.playback(hr.name, harness_timeout_s=1200 if ctx.tier == 'quick' else 3000, tag='C18', stubbing=False)
+            notes.append('kani playback %ss, %d tests' % (pmeta['wall_s'], len(tests)))
+            for t in tests:
+                if t['kind'] == 'cover':
+                    continue
+                s = decode_playback(hr.name, t)
+                if s is None:
+                    notes.append('playback values for "%s" do not match the harness layout: widths %s' % (t['check'], t['widths']))
+                else:
+                    scns.append(s)
+        except Exception as e:   # noqa
+            notes.append('playback failed: %r' % (e,))
+        if scns:
+            res = first_reproducing(scns)
     res['detail'] = 'kani failed checks %s; %s; %s' % ([c['description'] for c in hr.failed[:3]], '; '.join(notes), res.get('detail'))
     return res
 
